@@ -74,7 +74,7 @@ class TlcResult:
 
 
 def _java_cmd(extra_props=()):
-    cmd = ["java", "-XX:+UseParallelGC", "-Xss16m", "-DTLA-Library=" + os.path.join(SPECS, "lib")]
+    cmd = ["java", "-XX:+UseParallelGC", "-Xss16m", "-Xmx" + os.environ.get("VERIF_TLC_XMX", "8g"), "-DTLA-Library=" + os.path.join(SPECS, "lib")]
     cmd += list(extra_props)
     cmd += ["-cp", TLA_JAR + ":" + TLA_DEPS, "tlc2.TLC"]
     return cmd
@@ -87,7 +87,7 @@ def run_tlc(module, cfg, workdir, workers=None, env=None, args=(), timeout=3600,
     meta = os.path.join(workdir, "meta-%d-%d" % (os.getpid(), int(time.time() * 1000) % 10 ** 9))
     cmd = _java_cmd(props) + [
         "-metadir", meta, "-noGenerateSpecTE",
-        "-workers", str(workers or "auto"),
+        "-workers", str(workers or os.environ.get("VERIF_TLC_WORKERS") or "auto"),
         "-config", cfg,
     ] + list(args) + [module]
     e = dict(os.environ)
